@@ -31,7 +31,7 @@ def T(mod, *names):
 
 
 PROPS = {
-    "C01": dict(level="proof", theorems=T("C01"), gens=["C01"], gens_thorough=["C01", "C01_exhaustive"],
+    "C01": dict(level="proof", theorems=T("C01", "C01_normal", "C01_fast", "C01_total_normal", "C01_total_fast", "C01_zero"), gens=["C01"], gens_thorough=["C01", "C01_exhaustive"],
                 rule="seeded well-formed graphs (arc subsets of de Bruijn graphs k<=3 quick / k<=5 thorough, mixed "
                      "out-degrees) x start x permutation table x message x mode x check length; a case is one encode "
                      "line; non-trivial = message value > 0 and the walk visits a branching vertex; distinct = hash "
@@ -47,10 +47,10 @@ PROPS = {
     "C04": dict(level="proof", theorems=T("C04"), gens=["C04"],
                 rule="graphs returned by the real connect_coding_graph x retained starts x messages x modes, accessor "
                      "passed as a read-counting proxy; non-trivial = value > 0 and a branching vertex visited"),
-    "C05": dict(level="proof", theorems=T("C05"), gens=["C05"],
+    "C05": dict(level="proof", theorems=T("C05", "C05_encode_meets_spec", "C05_spec_unique", "C05_decode_value", "C05_fast_meets_spec", "C05_fast_decode_value") + T("C18", "C18_digit_is_rank", "C18_bijection"), gens=["C05"],
                 rule="as C01 plus arbitrary walks decoded; compared with an independent integer-arithmetic reference "
                      "coder; non-trivial = message/walk value > 0 with a branching vertex"),
-    "C06": dict(level="proof", theorems=T("C06"), gens=["C06"],
+    "C06": dict(level="proof", theorems=T("C06", "C06_normal", "C06_fast", "C06_table_independent"), gens=["C06"],
                 rule="strings (walks, edited walks, random, foreign characters, empty) x graphs x starts x optional "
                      "check (right / wrong / long) x modes; non-trivial = non-empty string"),
     "C07": dict(level="proof", theorems=T("C07", "C07_shape", "C07_foreign", "C07_subst", "C07_insert", "C07_delete",
